@@ -311,13 +311,20 @@ theorem arith_chain_groups_left (x0 : String) (xs : List String) :
     induction xs with
     | nil => rfl
     | cons y ys ih => simp [chainToks, List.flatMap_cons] at ih ⊢; omega
-  obtain ⟨f, hf⟩ : ∃ f, 4 * (Tok.atom x0 :: chainToks xs).length + 8 = f + 3 :=
-    ⟨4 * (Tok.atom x0 :: chainToks xs).length + 5, by omega⟩
+  obtain ⟨f, hf⟩ : ∃ f, 8 * (Tok.atom x0 :: chainToks xs).length + 8 = f + 3 :=
+    ⟨8 * (Tok.atom x0 :: chainToks xs).length + 5, by omega⟩
   rw [hf]
   simp only [parseSum]
   rw [parseProduct_atom f x0 xs]
   simp
   rw [sumLoop_chain xs _ (f + 2) (by rw [hlen] at hf; omega)]
+
+/-- **the arithmetic parser inverts the printer**: every expression tree, of any size and shape, printed with minimal
+    or with redundant parentheses for the left-associative two-level grammar, parses back to exactly that tree (so
+    precedence, left grouping of chains and parenthesised right operands are all as the grammar says) -/
+theorem arith_parse_print (extra : Bool) (e : AExpr) : parseA (printA extra e) = some e := by
+  unfold parseA
+  rw [roundtrip extra e]
 
 /-- every expression with two operators over any three operands, in both groupings, printed with minimal or with
     redundant parentheses, parses back to itself (so `a - b - c` and `a - (b - c)` are told apart, and
